@@ -112,6 +112,37 @@ theorem save_info_decode_encode (i : SaveInfo) (bs rest : Bytes) (henc : writeSa
   refine RT.step (RT_writeList RT_writeString) (fun _ _ => trivial) h ?_; clear h; intro bs h
   exact done_step h rfl
 
+/-- the file `collect_reads` writes since fix cc73ffc, seen by `load_read_info`: the three fields come back and the
+    reader stops right before the unaligned count (`ub` = its four bytes) -/
+theorem info_file_head (i : SaveInfo) (u : Int) (bs rest : Bytes) (henc : writeInfoFile i u = some bs) :
+    ∃ hb ub, writeSaveInfo i = some hb ∧ writeInt u = some ub ∧ bs = hb ++ ub ∧
+      readSaveInfo.run (bs ++ rest) = some (i, ub ++ rest) := by
+  unfold writeInfoFile at henc
+  obtain ⟨hb, y, h1, h2, rfl⟩ := seqW_cons_eq_some_iff.mp henc
+  obtain ⟨ub, z, h3, h4, rfl⟩ := seqW_cons_eq_some_iff.mp h2
+  cases seqW_nil_eq_some_iff.mp h4
+  refine ⟨hb, ub, h1, h3, by simp, ?_⟩
+  have := save_info_decode_encode i hb (ub ++ rest) h1
+  simpa using this
+
+/-- ... and by `load_unaligned_reads`: exactly the number that was stored, nothing left -/
+theorem info_file_unaligned (i : SaveInfo) (u : Int) (bs : Bytes) (henc : writeInfoFile i u = some bs) :
+    readUnaligned.run bs = some (u, []) := by
+  obtain ⟨hb, ub, h1, h3, rfl, _⟩ := info_file_head i u bs [] henc
+  unfold readUnaligned
+  rw [StateT.run_bind, save_info_decode_encode i hb ub h1]
+  have := RT_writeInt ser_LONG_INT_BYTES u ub [] trivial h3
+  simpa using this
+
+/-- an `_info` file of the older format (three fields only) gives 0 unaligned reads, no exception -/
+theorem old_info_file_unaligned (i : SaveInfo) (bs : Bytes) (henc : writeSaveInfo i = some bs) :
+    readUnaligned.run bs = some (0, []) := by
+  unfold readUnaligned
+  have := save_info_decode_encode i bs [] henc
+  simp only [List.append_nil] at this
+  rw [StateT.run_bind, this]
+  rfl
+
 /-! ### non-vacuity -/
 
 def exHeader : GeneHeader := { delta := 6, geneIds := ["ENSG1", "ENSG2"], chrId := "chr1", start := 900, «end» := 2100 }
@@ -134,5 +165,9 @@ example : (writeMultimap [[exBasic, exBasic], [exBasic]]).isSome = true ∧
 
 example : ((writeSaveInfo ⟨17, 5, ["NA", "g1"]⟩).bind fun bs => readSaveInfo.run bs) = some (⟨17, 5, ["NA", "g1"]⟩, []) := by
   decide +kernel
+
+example : ((writeInfoFile ⟨17, 5, ["NA", "g1"]⟩ 7).bind fun bs => readUnaligned.run bs) = some (7, []) ∧
+    ((writeInfoFile ⟨17, 5, ["NA", "g1"]⟩ 7).bind fun bs => readSaveInfo.run bs) = some (⟨17, 5, ["NA", "g1"]⟩, [0, 0, 0, 7]) := by
+  refine ⟨?_, ?_⟩ <;> decide +kernel
 
 end IsoVerif.Props.C15Stream
